@@ -28,6 +28,22 @@ def run(ctx, replay):
     ctx.extra["events"] = summ["events"]
     vcore.validate_all(ctx, "MasterTrace", "MasterTrace.cfg", tr, describe=describe, dfs=True)
 
+    # leg R -- behaviours chosen by TLC from the event machine (MasterGen: 5 nodes, 2 databases, up to 6 shards,
+    # replica factor up to 3) are executed step by step against the real StateManager; the recorded states are
+    # validated like every other trace: the real state must be the state the model predicts after every step
+    ng, depth = (1200, 200) if thorough else (200, 140)
+    gen = ctx.generate_behaviours("MasterGen", "MasterGen.cfg", ng, depth)
+    gpath = os.path.join(ctx.scratch, "master-gen.json")
+    with open(gpath, "w") as f:
+        json.dump(gen, f)
+    trg = os.path.join(ctx.scratch, "master-gen.ndjson")
+    gsumm, rc, _ = ctx.run_vdrive(["master", "--scripts", gpath, "--out", trg], timeout=3000)
+    for u in gsumm.get("unresolved") or []:
+        raise vcore.Unresolved("master driver (generated behaviours): %s" % u)
+    ctx.extra["generated_behaviours_replayed"] = len(gen)
+    ctx.extra["events_generated_behaviours"] = gsumm["events"]
+    vcore.validate_all(ctx, "MasterTrace", "MasterTrace.cfg", trg, describe=describe, dfs=True)
+
     def wrong_leader(lines):
         for i, ln in enumerate(lines):
             if '"ev":"State"' in ln and '"state":"online"' in ln:
